@@ -39,6 +39,7 @@ fn opts() -> GenOpts {
     o.completers = true;
     o.shell_completers = true;
     o.pure_fail = true;
+    o.adjacent_cmds = true;
     o
 }
 
